@@ -330,6 +330,17 @@ struct Mixed {
                     MX("VSsetblocksize", VSsetblocksize(vs, (int32)(16 + o.arg(4) % 200)) == FAIL);
                 std::vector<uint8_t> d = records(nf, nrec, (uint64_t)o.arg(3));
                 MX("VSwrite", VSwrite(vs, d.data(), nrec, FULL_INTERLACE) != nrec);
+                if ((o.arg(3) >> 4) % 3 == 0) {
+                    // attributes of the vdata and of two of its fields, set in mixed order (they share one list)
+                    int32 a0[2] = {(int32)(o.arg(3) & 0xffff), 7}, a1 = (int32)(o.arg(3) >> 8 & 0xffff);
+                    int16 f0[3] = {1, 2, (int16)(o.arg(3) & 0x7ff)}, fb = (int16)idx;
+                    MX("VSsetattr", VSsetattr(vs, _HDF_VDATA, "va0", DFNT_INT32, 2, a0) == FAIL);
+                    MX("VSsetattr", VSsetattr(vs, 0, "fa0", DFNT_INT16, 3, f0) == FAIL);
+                    MX("VSsetattr", VSsetattr(vs, _HDF_VDATA, "va1", DFNT_INT32, 1, &a1) == FAIL);
+                    if (nf > 1)
+                        MX("VSsetattr", VSsetattr(vs, nf - 1, "fb", DFNT_INT16, 1, &fb) == FAIL);
+                    ctx.probe("vs-attributes");
+                }
                 MX("VSdetach", VSdetach(vs) == FAIL);
                 return true;
             }
@@ -374,6 +385,23 @@ struct Mixed {
                 if (got > 0)
                     ctx.trb(buf.data(), (size_t)got * (size_t)sz);
             }
+            // attributes of the vdata and of its fields
+            for (int32 fi = -1; fi < nf; fi++) {
+                int32 findex = fi < 0 ? _HDF_VDATA : fi;
+                intn  na     = VSfnattrs(vs, findex);
+                ctx.tr((uint64_t)(int64_t)na);
+                for (intn a = 0; a < na; a++) {
+                    char  an[256] = "";
+                    int32 at = 0, cnt = 0, asz = 0;
+                    if (MX("VSattrinfo", VSattrinfo(vs, findex, a, an, &at, &cnt, &asz) == FAIL) || asz <= 0 || asz > 4096)
+                        continue;
+                    std::vector<uint8_t> val((size_t)asz);
+                    MX("VSgetattr", VSgetattr(vs, findex, a, val.data()) == FAIL);
+                    ctx.trb(an, strlen(an));
+                    ctx.tr((uint64_t)at * 65536 + (uint64_t)cnt);
+                    ctx.trb(val.data(), val.size());
+                }
+            }
             MX("VSdetach", VSdetach(vs) == FAIL);
             ctx.st.checks++;
             return true;
@@ -392,6 +420,13 @@ struct Mixed {
                     return true;
                 MX("Vsetname", Vsetname(vg, nm.c_str()) == FAIL);
                 MX("Vsetclass", Vsetclass(vg, "mixedgrp") == FAIL);
+                if (o.arg(1) % 3 == 0) {
+                    int32 ga[2] = {(int32)o.arg(1), (int32)idx};
+                    int16 gb = (int16)(o.arg(1) + 3);
+                    MX("Vsetattr", Vsetattr(vg, "ga", DFNT_INT32, 2, ga) == FAIL);
+                    MX("Vsetattr", Vsetattr(vg, "gb", DFNT_INT16, 1, &gb) == FAIL);
+                    ctx.probe("vg-attributes");
+                }
                 int nm_ = (int)std::max<int64_t>(0, o.arg(1)) % 70;
                 for (int j = 0; j < nm_; j++)
                     MX("Vaddtagref", Vaddtagref(vg, (int32)(8200 + j % 3), (int32)(1 + j % 8)) == FAIL);
@@ -438,6 +473,21 @@ struct Mixed {
             Vgetclass(vg, cb);
             ctx.trb(nb, strlen(nb));
             ctx.trb(cb, strlen(cb));
+            {
+                intn na = Vnattrs(vg);
+                ctx.tr((uint64_t)(int64_t)na);
+                for (intn a = 0; a < na; a++) {
+                    char  an[256] = "";
+                    int32 at = 0, cnt = 0, asz = 0;
+                    if (MX("Vattrinfo", Vattrinfo(vg, a, an, &at, &cnt, &asz) == FAIL) || asz <= 0 || asz > 4096)
+                        continue;
+                    std::vector<uint8_t> val((size_t)asz);
+                    MX("Vgetattr", Vgetattr(vg, a, val.data()) == FAIL);
+                    ctx.trb(an, strlen(an));
+                    ctx.tr((uint64_t)at * 65536 + (uint64_t)cnt);
+                    ctx.trb(val.data(), val.size());
+                }
+            }
             MX("Vdetach", Vdetach(vg) == FAIL);
             ctx.st.checks++;
             return true;
